@@ -4,15 +4,43 @@ const H = require('../lib/hspace');
 const G = require('../lib/hgen');
 const { stable, hash } = require('../lib/canon');
 const { sequences, product } = require('../lib/spaces');
+const fs = require('fs');
+const path = require('path');
+
+// real-world JSX-free corpus: the npm tree that ships with the image's node (a fixed finite set, enumerated completely)
+const CORPUS_ROOT = '/usr/lib/node_modules/npm';
+function corpusFiles(limit) {
+  const out = [];
+  const walk = (d) => {
+    let ents;
+    try { ents = fs.readdirSync(d, { withFileTypes: true }); } catch (e) { return; }
+    ents.sort((a, b) => (a.name < b.name ? -1 : 1));
+    for (const e of ents) {
+      if (out.length >= limit) return;
+      const p = path.join(d, e.name);
+      if (e.isDirectory()) walk(p);
+      else if (/\.(js|mjs|cjs)$/.test(e.name)) { try { if (fs.statSync(p).size < 65536) out.push(p); } catch (e2) {} }
+    }
+  };
+  walk(CORPUS_ROOT);
+  return out;
+}
 
 const T_ITEMS = Object.keys(H.T).map((t) => ({ t }));
 const TS_MIX = T_ITEMS.concat(G.CORE.filter((it) => !(it.d && ['importFragmentAlias'].includes(it.d))));
 
 function optsOf(c) { return JSON.stringify({ transformOn: true, optimize: !!c.o.optimize, enableObjectSlots: c.o.eos !== false, resolveType: !!c.o.resolveType }); }
-function requests(c) { return [{ src: H.renderHistory(c.items, !!c.ts), ts: !!c.ts, want: ['frame', 'second', 'ident_in'], opts: optsOf(c) }]; }
+function requests(c) { if (c.file) { let src = ''; try { src = fs.readFileSync(c.file, 'utf8'); } catch (e) {} return [{ src, want: ['frame', 'ident_in'], opts: JSON.stringify({ optimize: true, resolveType: true, transformOn: true }) }]; } return [{ src: H.renderHistory(c.items, !!c.ts), ts: !!c.ts, want: ['frame', 'second', 'ident_in'], opts: optsOf(c) }]; }
 
 function judge(c, resps) {
   const r = resps[0];
+  if (c.file) {
+    if (r.parse_error || r.panic || r.died || r.hang || r.printed === undefined) return { skip: true }; // scripts / non-module syntax: outside the quantifier
+    const v = [];
+    if (!r.frame || !r.frame.ok) v.push({ clause: 'corpus-frame', diff: 'frame:different', msg: 'a real-world JSX-free file was changed', expected: r.frame && r.frame.in && r.frame.in.slice(0, 400), observed: r.frame && r.frame.out && r.frame.out.slice(0, 400) });
+    if (typeof r.ident_in === 'string' && r.printed !== r.ident_in) v.push({ clause: 'corpus-unchanged', diff: 'printed:different', msg: 'a real-world JSX-free file is not returned unchanged' });
+    return { viol: v, obs: hash(r.printed), clauses: ['corpus-frame', 'corpus-unchanged'] };
+  }
   if (r.parse_error) return { engineError: 'generated history does not parse: ' + r.parse_error + ' :: ' + H.renderHistory(c.items, !!c.ts).slice(0, 300) };
   if (r.panic || r.died || r.hang || r.printed === undefined) return { skip: true };
   const viol = [];
@@ -55,10 +83,16 @@ function spaces(tier) {
       }
     },
   });
+  sp.push({
+    name: 'W:real-world-jsx-free-corpus',
+    bounds: { root: CORPUS_ROOT, files: thorough ? 'all *.js/*.mjs/*.cjs < 64 KiB' : 'the first 400 in sorted walk order', note: 'files the SWC parser does not accept as a module are skipped; thorough: the fixed corpus is enumerated completely; quick: a deterministic prefix of it (labelled: a subset, supplementary to the generated histories)' },
+    *gen() { for (const file of corpusFiles(thorough ? 1e9 : 400)) yield { file, items: [], o: {} }; },
+  });
   return sp;
 }
 
 function* shrink(c) {
+  if (c.file) return;
   for (const items of G.shrinkItems(c.items)) if (items.length && (!c.ts || items.every((it) => it.t || it.d || it.k))) yield Object.assign({}, c, { items });
   if (c.o.optimize) yield Object.assign({}, c, { o: Object.assign({}, c.o, { optimize: false }) });
   if (c.o.eos === false) yield Object.assign({}, c, { o: Object.assign({}, c.o, { eos: true }) });
@@ -71,6 +105,6 @@ module.exports = {
   rule: 'explicit-state BFS over module-item histories (JSX embedded in assignments, arrows incl. async/typed/generic, classes, loops, try/catch, labelled blocks, switch, default parameters; JSX-free distractors; TS declarations and defineComponent calls in .tsx histories) × option vectors; for every state the driver compares the visitor\'s raw output AST with the input AST after erasing (input) outermost JSX expressions and (output) generated-span expression subtrees, generated import/let/const/function items, arrow bodies folded back, and - under resolveType - generated options of calls to vue\'s defineComponent: the two must be equal span-insensitively (order-sensitive); JSX-free states must print byte-identically to the identity pipeline; and the transform applied to its own printed output must equal the identity pipeline on that output. Distinct = distinct printed outputs.',
   assumptions: ['span criterion for "generated" (DUMMY_SP / reserved dummy range)', 'swc eq_ignore_span', 'identity pipeline = parse → resolver → hygiene → fixer → codegen without the visitor'],
   spaces, requests, judge, shrink,
-  caseKey: (c) => G.key(c.items) + ` {${c.ts ? 'tsx ' : ''}${Object.keys(c.o).filter((k) => c.o[k] !== undefined).map((k) => k + '=' + c.o[k]).join(',')}}`,
+  caseKey: (c) => (c.file ? 'W:' + c.file : G.key(c.items)) + ` {${c.ts ? 'tsx ' : ''}${Object.keys(c.o).filter((k) => c.o[k] !== undefined).map((k) => k + '=' + c.o[k]).join(',')}}`,
   depth: (c) => c.items.length,
 };
